@@ -95,7 +95,7 @@ theorem BInv_setT {s : State} (hB : BInv s) {t : Tid} {th : Thread} (hg : getT s
     exact hB u thu hu
 
 theorem BInv_notifyOne {s : State} (hB : BInv s) (ch : Nat) : BInv (notifyOne s ch) := by
-  rcases notifyOne_cases s ch with ⟨_, heq⟩ | ⟨w, thw, timed, hw, hwpc, heq⟩
+  rcases notifyOne_casesW s ch with ⟨_, heq⟩ | ⟨w, thw, timed, hw, hwpc, heq⟩
   · rw [heq]; exact hB
   · rw [heq]
     exact BInv_setT hB hw s _ rfl
@@ -127,12 +127,12 @@ theorem BInv_step {s s' : State} {t : Tid} {ch : Nat} (hB : BInv s) (h : step s 
         exact BInv_setT hB hg _ _ rfl (bal_enter hb hpc hp _ rfl rfl rfl rfl)
     case enqNotify =>
       simp only [step, hg, hpc] at h; cases h
-      have hg' := getT_notifyOne hg (by simp [isParked, hpc]) ch
+      have hg' := getT_notifyOneW hg (by simp [isParked, hpc]) ch
       exact BInv_setT (BInv_notifyOne hB ch) hg' _ _ rfl
         (bal_finish0 hb (by rw [hpc]; rfl) (by rw [hpc]; intro h; cases h) _ rfl rfl rfl)
     case dqnNotify =>
       simp only [step, hg, hpc] at h; cases h
-      have hg' := getT_notifyOne hg (by simp [isParked, hpc]) ch
+      have hg' := getT_notifyOneW hg (by simp [isParked, hpc]) ch
       refine BInv_setT (BInv_notifyOne hB ch) hg' _ _ rfl ?_
       obtain ⟨h1, h2⟩ := hb
       obtain ⟨c, r, hp, hc⟩ := h2 (by rw [hpc]; intro h; cases h)
